@@ -247,13 +247,30 @@ Deliver(m, pid, v) ==
             IN Go([m1 EXCEPT !.cors[pid] = p2, !.cur = pid])
 
 \* primitive built-ins are ordinary functions in the implementation: an error raised inside one is
+\* ---- arithmetic the value model cannot compute (an operand or the result lies outside the exact float sub-domain).  In trace mode
+\* its result is a *symbolic float*: the application of an operator that is not interpreted but is a function -- the same operation on
+\* the same operands gives the same float64 wherever and whenever it is evaluated.  The first observation that shows the value of a
+\* symbolic float (a statement whose value it is) is accepted and remembered; from then on the symbolic float stands for that value,
+\* so a later statement that must compute the same operations in the same order (`x + 1 - 1` after `t = x + 1`, `t - 1`) is held to it.
+TraceRec == IF "rec" \in DOMAIN Sessions[pi] THEN Sessions[pi].rec ELSE <<>>
+SymF(op, a, b) == [k |-> "float", c |-> "sym", neg |-> FALSE, n |-> 0, e |-> 0, term |-> <<op, a, b>>]
+LearnedAt(t) == {i \in 1..Len(obs) : /\ "val" \in DOMAIN obs[i] /\ IsSymF(obs[i].val) /\ obs[i].val.term = t
+                                      /\ i <= Len(TraceRec) /\ TraceRec[i].kind = "val" /\ TraceRec[i].val.k = "float"}
+Canon(v) == IF IsSymF(v) /\ LearnedAt(v.term) # {}
+            THEN TraceRec[CHOOSE i \in LearnedAt(v.term) : \A j \in LearnedAt(v.term) : i <= j].val ELSE v
+BinApplyS(op, a0, b0) ==
+  LET a == Canon(a0)  b == Canon(b0)  r == BinApply(op, a, b) IN
+  IF Len(TraceRec) > 0 /\ IsErr(r) /\ r.err = "unspec" /\ op \in {"+", "-", "*", "/"}
+     /\ a.k \in {"int", "float"} /\ b.k \in {"int", "float"} /\ (a.k = "float" \/ b.k = "float")
+  THEN Ok(Canon(SymF(op, a, b))) ELSE r
+
 \* reported with the built-in's own call (name as called, argument) as the innermost frame
 InPrim(r, name, args) == IF "raise" \in DOMAIN r THEN r @@ [frame |-> [name |-> name, args |-> args]] ELSE r
 CallPrim(m, c1, fv, args, calledAs) ==
   LET b == fv.b IN
   CASE b = "write" -> LET r == Render(args[1]) IN
                       IF IsErr(r) THEN UnspecR ELSE Go(SetC([m EXCEPT !.out = @ \o r.val], RetC(c1, Nil)))
-    [] b = "toa" -> IF IsOpqF(args[1]) THEN Go(SetC(m, RetC(c1, OpqS(args[1].bits)))) ELSE
+    [] b = "toa" -> IF IsOpqF(Canon(args[1])) THEN Go(SetC(m, RetC(c1, OpqS(Canon(args[1]).bits)))) ELSE
                     LET r == Render(args[1]) IN IF IsErr(r) THEN UnspecR ELSE Go(SetC(m, RetC(c1, StrV(r.val))))
     [] b = "aton" -> LET r == Aton(args[1]) IN
                      IF IsErr(r) THEN InPrim(FromErr(r, "ATON", <<args[1]>>), calledAs, args) ELSE Go(SetC(m, RetC(c1, r.val)))
@@ -265,9 +282,9 @@ CallPrim(m, c1, fv, args, calledAs) ==
 StepRet(m) ==
   LET c == m.cors[m.cur]  v == c.ctl  f == Last(c.k)  c1 == PopK(c) IN
   CASE f.t = "binr" -> Go(SetC(m, EvalC(PushK(c1, [t |-> "bina", op |-> f.op, lv |-> v]), f.r)))
-    [] f.t = "bina" -> LET r == BinApply(f.op, f.lv, v) IN
+    [] f.t = "bina" -> LET r == BinApplyS(f.op, f.lv, v) IN
                        IF IsErr(r) THEN FromErr(r, f.op, <<f.lv, v>>) ELSE Go(SetC(m, RetC(c1, r.val)))
-    [] f.t = "una" -> LET r == UnApply(f.op, v) IN
+    [] f.t = "una" -> LET r == IF f.op = "-" /\ v.k # "bigint" THEN BinApplyS("*", IntV(-1), v) ELSE UnApply(f.op, Canon(v)) IN
                       IF IsErr(r) THEN (IF f.op = "-" THEN FromErr(r, "*", <<IntV(-1), v>>) ELSE FromErr(r, f.op, <<v>>))
                       ELSE Go(SetC(m, RetC(c1, r.val)))
     [] f.t = "ixk" ->
@@ -392,8 +409,10 @@ Sess == Sessions[pi]
 HasRec == "rec" \in DOMAIN Sess
 CmpHas(x) == IF "cmp" \in DOMAIN Sess THEN \E i \in 1..Len(Sess.cmp) : Sess.cmp[i] = x ELSE x = "value"
 RECURSIVE SameVal(_, _)
-SameVal(a, b) ==      \* a: spec value, b: recorded value
+SameVal(a0, b) ==      \* a0: spec value, b: recorded value
+  LET a == Canon(a0) IN
   \/ b.k = "none"     \* file mode: the value is discarded by the implementation
+  \/ IsSymF(a) /\ b.k = "float"     \* a symbolic float not yet seen: any float is accepted, and remembered (LearnedAt)
   \/ /\ a.k = b.k
      /\ CASE a.k \in {"nil", "fn"} -> TRUE
           [] a.k \in {"int", "bool"} -> a.v = b.v
